@@ -157,6 +157,12 @@ impl Config {
         self.buffered_threshold = threshold;
     }
 
+    #[cfg(feature = "verif-hooks")]
+    #[inline]
+    pub(crate) fn verif_bytes_threshold(&self) -> usize {
+        self.bytes_threshold
+    }
+
     #[inline(always)]
     pub(super) fn should_collect(&mut self, state: &State, possible_cycles: &PossibleCycles) -> bool {
         if !self.auto_collect {
@@ -182,6 +188,8 @@ impl Config {
             loop {
                 let Some(new_threshold) = self.bytes_threshold.checked_shl(1) else { break; };
                 self.bytes_threshold = new_threshold;
+                #[cfg(feature = "verif-hooks")]
+                crate::verif::probe(17);
                 if state.allocated_bytes() < self.bytes_threshold {
                     break;
                 }
@@ -205,10 +213,14 @@ impl Config {
                 break; // If the shift produces a threshold <= allocated, then don't update bytes_threshold to maintain the invariant
             }
             if new_threshold <= DEFAULT_BYTES_THRESHOLD {
+                #[cfg(feature = "verif-hooks")]
+                crate::verif::probe(19);
                 self.bytes_threshold = DEFAULT_BYTES_THRESHOLD;
                 break;
             }
             self.bytes_threshold = new_threshold;
+            #[cfg(feature = "verif-hooks")]
+            crate::verif::probe(18);
         }
     }
 }
